@@ -7,11 +7,34 @@ prefix-free.  Self-contained and Mathlib-free (the full codec with `split_netstr
 namespace Tahoe.Base.NetstringEnc
 
 
+/-- fuel-driven worker for `decDigits` (structural recursion, so that the kernel can evaluate it);
+    with `n < fuel` the fuel never runs out -/
+def decDigitsAux : Nat → Nat → List UInt8
+  | 0, _ => []
+  | fuel + 1, n =>
+    if n < 10 then [UInt8.ofNat (48 + n)] else decDigitsAux fuel (n / 10) ++ [UInt8.ofNat (48 + n % 10)]
+
 /-- ASCII decimal digits of `n` without leading zeros (`b"%d" % n` for `n ≥ 0`). -/
-def decDigits (n : Nat) : List UInt8 :=
-  if n < 10 then [UInt8.ofNat (48 + n)] else decDigits (n / 10) ++ [UInt8.ofNat (48 + n % 10)]
-termination_by n
-decreasing_by omega
+def decDigits (n : Nat) : List UInt8 := decDigitsAux (n + 1) n
+
+theorem decDigitsAux_fuel : ∀ (f1 f2 n : Nat), n < f1 → n < f2 → decDigitsAux f1 n = decDigitsAux f2 n
+  | 0, _, _, h, _ => by omega
+  | _ + 1, 0, _, _, h => by omega
+  | f1 + 1, f2 + 1, n, h1, h2 => by
+    simp only [decDigitsAux]
+    split
+    · rfl
+    · rw [decDigitsAux_fuel f1 f2 (n / 10) (by omega) (by omega)]
+
+/-- the defining equation of `decDigits` -/
+theorem decDigits_eq (n : Nat) :
+    decDigits n = if n < 10 then [UInt8.ofNat (48 + n)] else decDigits (n / 10) ++ [UInt8.ofNat (48 + n % 10)] := by
+  show decDigitsAux (n + 1) n = _
+  rw [decDigitsAux]
+  by_cases h : n < 10
+  · simp only [h, if_true]
+  · simp only [h, if_false]
+    rw [decDigits, decDigitsAux_fuel n (n / 10 + 1) (n / 10) (by omega) (by omega)]
 
 /-- `netstring(s) = b"%d:%s," % (len(s), s)`; 58 = ':' and 44 = ','. -/
 def netstring (s : List UInt8) : List UInt8 := decDigits s.length ++ 58 :: (s ++ [44])
@@ -23,7 +46,7 @@ theorem decDigits_digit (n : Nat) : ∀ d ∈ decDigits n, 48 ≤ d.toNat ∧ d.
   induction n using Nat.strongRecOn with
   | _ n ih =>
     intro d hd
-    rw [decDigits] at hd
+    rw [decDigits_eq] at hd
     split at hd
     · simp only [List.mem_singleton] at hd
       subst hd
@@ -48,7 +71,7 @@ theorem decVal_append_single (ds : List UInt8) (d : UInt8) :
 theorem decVal_decDigits (n : Nat) : decVal (decDigits n) = n := by
   induction n using Nat.strongRecOn with
   | _ n ih =>
-    rw [decDigits]
+    rw [decDigits_eq]
     split
     · simp only [decVal, List.foldl_cons, List.foldl_nil, UInt8.toNat_ofNat']
       omega
@@ -103,7 +126,7 @@ theorem netstring_length (s : List UInt8) : (netstring s).length = (decDigits s.
 theorem netstring_head_digit (s x : List UInt8) :
     ∃ d r, netstring s ++ x = d :: r ∧ 48 ≤ d.toNat ∧ d.toNat ≤ 57 := by
   have hne : decDigits s.length ≠ [] := by
-    rw [decDigits]; split <;> simp
+    rw [decDigits_eq]; split <;> simp
   match hd : decDigits s.length with
   | [] => exact absurd hd hne
   | d :: ds =>
